@@ -514,6 +514,13 @@ func libTokenFromRef(t *refcodec.Token) *esdt.ESDigitalToken {
 	return e
 }
 
+func min(a, b int) int {
+	if a < b {
+		return a
+	}
+	return b
+}
+
 func eqB(a, b []byte) bool { return (len(a) == 0 && len(b) == 0) || bytes.Equal(a, b) }
 
 func eqBigNilZero(a, b *big.Int) bool {
@@ -678,6 +685,22 @@ func runC14(c *harness.Ctx) {
 	}
 	if c.Batch == 0 {
 		checkVal(nil)
+		// decoded amounts are independent objects, zero included
+		for _, enc := range [][]byte{{0, 0}, {0, 5}, {1, 5}, {0, 1, 0}} {
+			a, _ := caster.Unmarshal(enc)
+			want := new(big.Int).Set(a)
+			a.Add(a, big.NewInt(77))
+			b, _ := caster.Unmarshal(enc)
+			if b == nil || b.Cmp(want) != 0 {
+				R.Violate("C14:decode-shares-state", fmt.Sprintf("after an in-place update of a decoded amount, Unmarshal(%x) gives %v", enc, b), hex.EncodeToString(enc))
+			}
+			if b != nil {
+				b.Sub(b, big.NewInt(5))
+			}
+			if z := caster.NewPopulated(); z == nil || z.Sign() != 0 {
+				R.Violate("C14:decode-shares-state", "NewPopulated does not return a fresh zero", nil)
+			}
+		}
 	}
 	nv := 0
 	for x := c.Batch; x < 1<<16; x += c.Batches {
@@ -721,6 +744,47 @@ func runC14(c *harness.Ctx) {
 			if !back.Equal(e) && !(e.Value == nil) {
 				// generated Equal treats nil/empty byte fields alike
 				_ = back
+			}
+			// decoded values are independent objects: updating one in place (as the built-in
+			// functions do with balances) must not reach any other decode
+			if back.Value != nil {
+				back.Value.Add(back.Value, big.NewInt(12345))
+				again2 := &esdt.ESDigitalToken{}
+				if err := again2.Unmarshal(got); err != nil || !libEqualsRef(again2, t) {
+					R.Violate("C14:decode-shares-state", fmt.Sprintf("after an in-place update of a decoded amount, decoding the same bytes %x again gives %v", got, again2.Value), hex.EncodeToString(got))
+				}
+				if again2.Value != nil {
+					again2.Value.Sub(again2.Value, big.NewInt(999))
+				}
+			}
+			// the buffer entry points: MarshalTo into a (zeroed) buffer longer than Size() writes
+			// the encoding at the start and reports its length; MarshalToSizedBuffer fills exactly
+			for _, extra := range []int{0, 1, 7, 64} {
+				buf := make([]byte, len(got)+extra)
+				n, err := e.MarshalTo(buf)
+				if err != nil || n != len(got) || !bytes.Equal(buf[:n], got) {
+					R.Violate("C14:marshalto", fmt.Sprintf("MarshalTo into a buffer of Size()+%d returned n=%d err=%v and buf[:n]=%x, Marshal() gives %x", extra, n, err, buf[:min(n, len(buf))], got), hex.EncodeToString(got))
+				}
+			}
+			{
+				buf := make([]byte, len(got))
+				n, err := e.MarshalToSizedBuffer(buf)
+				if err != nil || n != len(got) || !bytes.Equal(buf, got) {
+					R.Violate("C14:marshaltosized", fmt.Sprintf("MarshalToSizedBuffer returned n=%d err=%v buf=%x, Marshal() gives %x", n, err, buf, got), hex.EncodeToString(got))
+				}
+				if t.Meta != nil {
+					mg, _ := e.TokenMetaData.Marshal()
+					mb := make([]byte, len(mg)+5)
+					if n, err := e.TokenMetaData.MarshalTo(mb); err != nil || n != len(mg) || !bytes.Equal(mb[:n], mg) {
+						R.Violate("C14:marshalto", "MetaData.MarshalTo into a longer buffer differs from Marshal()", hex.EncodeToString(mg))
+					}
+					ro := &esdt.ESDTRoles{Roles: t.Meta.URIs}
+					rg, _ := ro.Marshal()
+					rb := make([]byte, len(rg)+5)
+					if n, err := ro.MarshalTo(rb); err != nil || n != len(rg) || !bytes.Equal(rb[:n], rg) {
+						R.Violate("C14:marshalto", "ESDTRoles.MarshalTo into a longer buffer differs from Marshal()", hex.EncodeToString(rg))
+					}
+				}
 			}
 			// the reference decoder reads the library's bytes
 			if rt, err := refcodec.DecodeToken(got); err != nil || !libEqualsRef(e, rt) {
@@ -822,11 +886,18 @@ func hostileLengthInputs(valid []byte) [][]byte {
 	}
 	lens := []uint64{0, 1, 127, 128, 1<<31 - 1, 1 << 31, 1<<32 - 1, 1 << 32, 1<<62 - 1, 1 << 62, 1<<63 - 1, 1 << 63, 1<<63 + 1, ^uint64(0) - 1, ^uint64(0)}
 	var out [][]byte
-	for field := 1; field <= 8; field++ {
-		for _, wt := range []int{0, 1, 2, 5} {
+	for field := 1; field <= 9; field++ {
+		for _, wt := range []int{0, 1, 2, 3, 4, 5, 6, 7} {
 			tag := varint(uint64(field<<3 | wt))
 			for _, l := range lens {
 				in := append(append([]byte{}, tag...), varint(l)...)
+				// the same entry inside an (unknown) group opened by a start-group tag, closed or not,
+				// and inside two nested groups
+				for _, gf := range []int{9, field} {
+					sg, eg := varint(uint64(gf<<3|3)), varint(uint64(gf<<3|4))
+					g1 := append(append([]byte{}, sg...), in...)
+					out = append(out, g1, append(append([]byte{}, g1...), eg...), append(append(append([]byte{}, sg...), g1...), eg...), append(append([]byte{}, valid...), g1...))
+				}
 				out = append(out, in, append(append([]byte{}, in...), 1, 2, 3), append(append([]byte{}, valid...), in...))
 				// nested in field 4 (metadata) of the token message
 				nested := append([]byte{0x22}, varint(uint64(len(in)))...)
@@ -835,6 +906,14 @@ func hostileLengthInputs(valid []byte) [][]byte {
 				out = append(out, append(append([]byte{}, tag...), 0xff, 0xff, 0xff, 0xff, 0xff, 0xff, 0xff, 0xff, 0xff, 0xff, 0x01), append(append([]byte{}, tag...), 0xff, 0xff, 0xff))
 			}
 		}
+	}
+	// deep nesting of groups and of the embedded metadata message
+	for _, depth := range []int{1, 10, 100, 1000, 10000} {
+		var g []byte
+		for i := 0; i < depth; i++ {
+			g = append(g, 0x4b)
+		}
+		out = append(out, g, append(append([]byte{}, g...), 0x0a, 0xff, 0xff, 0xff, 0xff, 0xff, 0xff, 0xff, 0xff, 0x7f))
 	}
 	return out
 }
@@ -1287,6 +1366,47 @@ func runC18(c *harness.Ctx) {
 			if ci == 1 {
 				sample(c, map[string]interface{}{"activation_epoch": a, "example_sequence": []uint32{a + 1, a - 1, a, 0, 4}, "checked": "IsActive of all 23 functions after every notification"})
 			}
+		}
+	}
+	// ---- a notifier that notifies on registration (the node's does): the epoch delivered while the
+	// container is being built is the most recently confirmed one ----
+	for _, a := range acts {
+		for _, cur := range []uint32{0, a - 1, a, a + 1, 1, ^uint32(0)} {
+			ci++
+			if !mine(c, ci) {
+				continue
+			}
+			cur := cur
+			w, err := world.New(world.Config{NumShards: 2, ActivationEpoch: a, NotifyOnRegister: &cur, DNS: [][]byte{gen.UserAddr(9, 0)}})
+			if err != nil {
+				R.Violate("C18:factory-fails", "factory rejects a valid configuration: "+err.Error(), nil)
+				continue
+			}
+			for _, sh := range w.Shards {
+				for _, name := range AllFuncs {
+					fn, err := sh.Container.Get(name)
+					if err != nil {
+						continue
+					}
+					want := !gatedFuncs[name] || cur >= a
+					if fn.IsActive() != want {
+						R.Violate("C18:activation-at-registration:"+name, fmt.Sprintf("%s.IsActive() = %v right after construction with activation epoch %d and epoch %d confirmed at registration", name, fn.IsActive(), a, cur), map[string]interface{}{"activation": a, "epoch_at_registration": cur})
+					}
+				}
+			}
+			// and it keeps following later notifications
+			for _, e := range []uint32{a, a - 1, a + 1} {
+				w.ConfirmEpoch(e)
+				for _, name := range AllFuncs {
+					if fn, err := w.Shards[0].Container.Get(name); err == nil {
+						if want := !gatedFuncs[name] || e >= a; fn.IsActive() != want {
+							R.Violate("C18:activation:"+name, fmt.Sprintf("%s.IsActive() = %v after epoch %d (activation %d, registered at epoch %d)", name, fn.IsActive(), e, a, cur), nil)
+						}
+					}
+				}
+			}
+			R.Cover("C18/registration-notifications")
+			R.Eval(1)
 		}
 	}
 	// ---- registry: exactly the 23 protocol names ----
